@@ -8,15 +8,19 @@ pub mod h6 {
    use crate::common::*;
    ascent! {
       pub struct Prog;
-      relation r0(i64);
-      relation r1(i64, i64);
-      relation r2(i64, i64);
-      relation r3(i64, i64);
+      relation r0(i64, i64);
+      relation r1(i64);
+      relation r2(i64, i64, i64);
+      relation r3(i64, i64, i64);
       relation r4(i64, i64);
-      r1((v0 + 1), (v0 + 1)) <-- r0(2), for v0 in [1, 4, 4], if (v0 < 6), if (v0 < 6);
-      r1(v1, v1) <-- r1(v0, 0) if ((*v0) < 4), r1(v0, v1);
-      r3(v0, v1) <-- r2(v0, v1), r2(v0, v0), r2(v1, v2);
-      r4(2, 0);
+      relation r5(i64, i64);
+      r1(0) <-- if let Some(v0) = Some(0), r0((v0 + 0), 3) if (v0 <= 2);
+      r2(v0, v1, 3) <-- r1(3), r5(v0, v1) if ((*v0) != 6);
+      r1(((*v0) + 1)) <-- r2(3, v0, 2), if ((*v0) < 6);
+      r4(v0, v1) <-- r4(v0, v1), r4(((*v0) + 1), v2);
+      r2(v0, v0, v0) <-- if let Some(v0) = None::<i64>, r1(v0), if (v0 <= 6);
+      r2(v1, v1, 3) <-- r5(v0, 3), r1(v1) if ((*v1) != 6);
+      r5(((*v1) + 1), v3) <-- let v0 = 1, r2(v1, v0, v2), r5((v0 + 1), v3), if ((*v1) < 6);
    }
    pub struct Inst { p: Prog, pool: Option<ascent::rayon::ThreadPool> }
    pub fn make(pool: Option<usize>) -> Box<dyn Driver> {
@@ -27,11 +31,12 @@ pub mod h6 {
    impl Driver for Inst {
       fn load(&mut self, rel: usize, rows: &[Sexp], append: bool) -> Option<()> {
          match rel {
-         0 => { let v: Vec<(i64,)> = parse_rows(rows)?; if append { self.p.r0.extend(v) } else { self.p.r0 = v } },
-         1 => { let v: Vec<(i64,i64,)> = parse_rows(rows)?; if append { self.p.r1.extend(v) } else { self.p.r1 = v } },
-         2 => { let v: Vec<(i64,i64,)> = parse_rows(rows)?; if append { self.p.r2.extend(v) } else { self.p.r2 = v } },
-         3 => { let v: Vec<(i64,i64,)> = parse_rows(rows)?; if append { self.p.r3.extend(v) } else { self.p.r3 = v } },
+         0 => { let v: Vec<(i64,i64,)> = parse_rows(rows)?; if append { self.p.r0.extend(v) } else { self.p.r0 = v } },
+         1 => { let v: Vec<(i64,)> = parse_rows(rows)?; if append { self.p.r1.extend(v) } else { self.p.r1 = v } },
+         2 => { let v: Vec<(i64,i64,i64,)> = parse_rows(rows)?; if append { self.p.r2.extend(v) } else { self.p.r2 = v } },
+         3 => { let v: Vec<(i64,i64,i64,)> = parse_rows(rows)?; if append { self.p.r3.extend(v) } else { self.p.r3 = v } },
          4 => { let v: Vec<(i64,i64,)> = parse_rows(rows)?; if append { self.p.r4.extend(v) } else { self.p.r4 = v } },
+         5 => { let v: Vec<(i64,i64,)> = parse_rows(rows)?; if append { self.p.r5.extend(v) } else { self.p.r5 = v } },
             _ => return None,
          }
          Some(())
@@ -39,7 +44,7 @@ pub mod h6 {
       fn run(&mut self) { match &self.pool { Some(pl) => { let p = &mut self.p; pl.install(|| p.run()) }, None => self.p.run() } }
       fn run_here(&mut self) { self.p.run() }
       fn run_timeout(&mut self, k: usize) -> Option<bool> { let _ = k; None }
-      fn dump(&self) -> String { vec![dump_rel(0, self.p.r0.iter().map(Row::render).collect()), dump_rel(1, self.p.r1.iter().map(Row::render).collect()), dump_rel(2, self.p.r2.iter().map(Row::render).collect()), dump_rel(3, self.p.r3.iter().map(Row::render).collect()), dump_rel(4, self.p.r4.iter().map(Row::render).collect())].join(" | ") }
+      fn dump(&self) -> String { vec![dump_rel(0, self.p.r0.iter().map(Row::render).collect()), dump_rel(1, self.p.r1.iter().map(Row::render).collect()), dump_rel(2, self.p.r2.iter().map(Row::render).collect()), dump_rel(3, self.p.r3.iter().map(Row::render).collect()), dump_rel(4, self.p.r4.iter().map(Row::render).collect()), dump_rel(5, self.p.r5.iter().map(Row::render).collect())].join(" | ") }
       fn iters(&self) -> String { format!("iters {}", self.p.scc_iters.iter().map(|x| x.to_string()).collect::<Vec<_>>().join(" ")) }
    }
 }
@@ -52,18 +57,17 @@ pub mod hp0 {
    use crate::common::*;
    ascent_par! {
       pub struct Prog;
-      relation r0(i64);
+      relation r0(i64, i64);
       relation r1(i64, i64);
-      relation r2(i64, i64);
+      relation r2(i64);
       relation r3(i64, i64);
-      relation r4(i64, i64);
-      r1(v1, v0) <-- for v0 in [1, 3, 4], r0(v1);
-      r1(((*v0) + 1), v0) <-- r1(v0, v1), r1(((*v0) + 1), ((*v1) + 1)), if ((*v0) < 6);
-      r1(v0, v8) <-- if let Some(v9) = Some(2), r4(v0, v1), r2(v1, v9) let v8 = ((*v0) + 1);
-      r3(v0, v0) <-- let v0 = 4;
-      r4((v0 + 1), 3) <-- for v0 in 2..2, if (v0 < 6);
-      r1(3, ((*v0) + 1)) <-- r0(v0), let v1 = (*v0), r3(v0, ((*v0) + 0)), if ((*v0) < 6);
-      r4(v2, 1) <-- r2(v0, v1), if ((*v0) == 0), r4(v2, v3);
+      r1(v0, v0) <-- r0(0, v0);
+      r2(((*v1) + 1)) <-- r1(3, v0), r3(v0, v1), if ((*v1) < 6);
+      r1(v0, v0) <-- r2(1), if let Some(v0) = Some(4), if (v0 <= 6);
+      r1(v0, v1) <-- r3(v0, v1) if ((*v0) < 5), r3(v1, v2) if ((*v2) != (*v1));
+      r2(0);
+      r2(((*v0) + 1)) <-- r1(v0, v1) if ((*v1) <= 2), r1(v1, v2), if ((*v0) < 6);
+      r3(v2, v0) <-- r3(v0, v1), let v2 = (*v1), if (v2 <= 6);
    }
    pub struct Inst { p: Prog, pool: Option<ascent::rayon::ThreadPool> }
    pub fn make(pool: Option<usize>) -> Box<dyn Driver> {
@@ -74,11 +78,10 @@ pub mod hp0 {
    impl Driver for Inst {
       fn load(&mut self, rel: usize, rows: &[Sexp], append: bool) -> Option<()> {
          match rel {
-         0 => { let v: Vec<(i64,)> = parse_rows(rows)?; if !append { self.p.r0 = Default::default(); } for x in v { self.p.r0.push(x); } },
+         0 => { let v: Vec<(i64,i64,)> = parse_rows(rows)?; if !append { self.p.r0 = Default::default(); } for x in v { self.p.r0.push(x); } },
          1 => { let v: Vec<(i64,i64,)> = parse_rows(rows)?; if !append { self.p.r1 = Default::default(); } for x in v { self.p.r1.push(x); } },
-         2 => { let v: Vec<(i64,i64,)> = parse_rows(rows)?; if !append { self.p.r2 = Default::default(); } for x in v { self.p.r2.push(x); } },
+         2 => { let v: Vec<(i64,)> = parse_rows(rows)?; if !append { self.p.r2 = Default::default(); } for x in v { self.p.r2.push(x); } },
          3 => { let v: Vec<(i64,i64,)> = parse_rows(rows)?; if !append { self.p.r3 = Default::default(); } for x in v { self.p.r3.push(x); } },
-         4 => { let v: Vec<(i64,i64,)> = parse_rows(rows)?; if !append { self.p.r4 = Default::default(); } for x in v { self.p.r4.push(x); } },
             _ => return None,
          }
          Some(())
@@ -86,7 +89,7 @@ pub mod hp0 {
       fn run(&mut self) { match &self.pool { Some(pl) => { let p = &mut self.p; pl.install(|| p.run()) }, None => self.p.run() } }
       fn run_here(&mut self) { self.p.run() }
       fn run_timeout(&mut self, k: usize) -> Option<bool> { let _ = k; None }
-      fn dump(&self) -> String { vec![dump_rel(0, self.p.r0.iter().map(|x| x.render()).collect()), dump_rel(1, self.p.r1.iter().map(|x| x.render()).collect()), dump_rel(2, self.p.r2.iter().map(|x| x.render()).collect()), dump_rel(3, self.p.r3.iter().map(|x| x.render()).collect()), dump_rel(4, self.p.r4.iter().map(|x| x.render()).collect())].join(" | ") }
+      fn dump(&self) -> String { vec![dump_rel(0, self.p.r0.iter().map(|x| x.render()).collect()), dump_rel(1, self.p.r1.iter().map(|x| x.render()).collect()), dump_rel(2, self.p.r2.iter().map(|x| x.render()).collect()), dump_rel(3, self.p.r3.iter().map(|x| x.render()).collect())].join(" | ") }
       fn iters(&self) -> String { format!("iters {}", self.p.scc_iters.iter().map(|x| x.to_string()).collect::<Vec<_>>().join(" ")) }
    }
 }
@@ -99,14 +102,18 @@ pub mod hl4 {
    use crate::common::*;
    ascent! {
       pub struct Prog;
-      relation r0(i64, i64);
-      relation r1(i64, i64);
-      lattice r2(i64, Option<i64>);
-      r2(v0, Some((*v0))) <-- r1(v0, v0);
-      r2(v1, v2) <-- r2(0, v0), r2(v1, v2);
-      r2(0, v0) <-- r2(0, v0);
-      r1(v2, ((*v2) + 1)) <-- r2(v0, v1), r2(v2, v3) if ((*v2) < 3), if ((*v2) < 6);
-      r2(v0, Some(2)) <-- r0(v0, v0);
+      relation r0(i64, i64, i64);
+      relation r1(i64, i64, i64);
+      relation r2(i64, i64, i64);
+      lattice r3(i64);
+      lattice r4(i64, Option<i64>);
+      r3((*v0)) <-- r1(v0, v1, v2);
+      r3(std::cmp::min(((*v0) + 1), 6)) <-- r3(v0), r1(v1, v2, v3);
+      r4(v0, Some((*v0))) <-- r2(v0, v1, v0) if ((*v0) < 2);
+      r4(v1, v0) <-- r4(2, v0), r0(v1, v1, v2);
+      r4(v0, Some((*v1))) <-- r2(v0, v1, v1);
+      r2(1, v1, v0) <-- r1(v0, v1, v2), r0(v1, v3, v4);
+      r4(3, Some(3)) <-- r3(v0);
    }
    pub struct Inst { p: Prog, pool: Option<ascent::rayon::ThreadPool> }
    pub fn make(pool: Option<usize>) -> Box<dyn Driver> {
@@ -117,9 +124,11 @@ pub mod hl4 {
    impl Driver for Inst {
       fn load(&mut self, rel: usize, rows: &[Sexp], append: bool) -> Option<()> {
          match rel {
-         0 => { let v: Vec<(i64,i64,)> = parse_rows(rows)?; if append { self.p.r0.extend(v) } else { self.p.r0 = v } },
-         1 => { let v: Vec<(i64,i64,)> = parse_rows(rows)?; if append { self.p.r1.extend(v) } else { self.p.r1 = v } },
-         2 => { let v: Vec<(i64,Option<i64>,)> = parse_rows(rows)?; if append { self.p.r2.extend(v) } else { self.p.r2 = v } },
+         0 => { let v: Vec<(i64,i64,i64,)> = parse_rows(rows)?; if append { self.p.r0.extend(v) } else { self.p.r0 = v } },
+         1 => { let v: Vec<(i64,i64,i64,)> = parse_rows(rows)?; if append { self.p.r1.extend(v) } else { self.p.r1 = v } },
+         2 => { let v: Vec<(i64,i64,i64,)> = parse_rows(rows)?; if append { self.p.r2.extend(v) } else { self.p.r2 = v } },
+         3 => { let v: Vec<(i64,)> = parse_rows(rows)?; if append { self.p.r3.extend(v) } else { self.p.r3 = v } },
+         4 => { let v: Vec<(i64,Option<i64>,)> = parse_rows(rows)?; if append { self.p.r4.extend(v) } else { self.p.r4 = v } },
             _ => return None,
          }
          Some(())
@@ -127,7 +136,7 @@ pub mod hl4 {
       fn run(&mut self) { match &self.pool { Some(pl) => { let p = &mut self.p; pl.install(|| p.run()) }, None => self.p.run() } }
       fn run_here(&mut self) { self.p.run() }
       fn run_timeout(&mut self, k: usize) -> Option<bool> { let _ = k; None }
-      fn dump(&self) -> String { vec![dump_rel(0, self.p.r0.iter().map(Row::render).collect()), dump_rel(1, self.p.r1.iter().map(Row::render).collect()), dump_rel(2, self.p.r2.iter().map(Row::render).collect())].join(" | ") }
+      fn dump(&self) -> String { vec![dump_rel(0, self.p.r0.iter().map(Row::render).collect()), dump_rel(1, self.p.r1.iter().map(Row::render).collect()), dump_rel(2, self.p.r2.iter().map(Row::render).collect()), dump_rel(3, self.p.r3.iter().map(Row::render).collect()), dump_rel(4, self.p.r4.iter().map(Row::render).collect())].join(" | ") }
       fn iters(&self) -> String { format!("iters {}", self.p.scc_iters.iter().map(|x| x.to_string()).collect::<Vec<_>>().join(" ")) }
    }
 }
